@@ -106,8 +106,8 @@ def drive(sc):
 
 def model_runs(tier):
     if tier == "quick":
-        return [{"module": "MC_C19", "constants": {"L": 3}, "heap": "6g"}]
-    return [{"module": "MC_C19", "constants": {"L": 3}, "heap": "6g"},
+        return [{"module": "MC_C19", "constants": {"L": 3}, "heap": "6g", "min_emitted": 85000}]
+    return [{"module": "MC_C19", "constants": {"L": 3}, "heap": "6g", "min_emitted": 85000},
             {"module": "MC_C19", "constants": {"L": 4, "Emit": "FALSE"}, "workers": 16, "heap": "12g", "emit": False}]
 
 
